@@ -34,6 +34,7 @@ type InjStore struct {
 	mu      sync.Mutex
 	mutates int64
 	Hook    func(ordinal int64, phase string, muts []*storage.Mutation) // phase: "before" | "after"
+	FailAt  int64                                                       // if != 0: the Mutate with this ordinal returns an error instead of writing
 }
 
 func (s *InjStore) Mutate(muts []*storage.Mutation, meta []byte) error {
@@ -43,6 +44,12 @@ func (s *InjStore) Mutate(muts []*storage.Mutation, meta []byte) error {
 	s.mu.Unlock()
 	if h != nil {
 		h(n, "before", muts)
+	}
+	s.mu.Lock()
+	ff := s.FailAt
+	s.mu.Unlock()
+	if ff != 0 && n == ff {
+		return fmt.Errorf("injected store fault: IO error while writing batch %d", n)
 	}
 	err := s.ManagedStore.Mutate(muts, meta)
 	if h != nil {
